@@ -7,6 +7,7 @@ package symx
 import (
 	"fmt"
 	"go/types"
+	"os"
 	"math/big"
 	"strings"
 )
@@ -140,7 +141,15 @@ func registerIntercepts(ex *Explorer) {
 	})
 	ex.register(zz+"SameBytes", func(fr *frame, args []value) value {
 		c := fr.i.ctx
-		return mkScalar(c, types.Bool, bytesEqTerm(args[0].([]value), args[1].([]value)))
+		t := bytesEqTerm(args[0].([]value), args[1].([]value))
+		if t.isFalse() && c.ex.Verbose {
+			if ha, ok := handleOf(args[0].([]value)); ok {
+				if hb, ok := handleOf(args[1].([]value)); ok {
+					fmt.Fprintf(os.Stderr, "SameBytes differs: %s\n", snapDiff(ha.snap, hb.snap, ha.kind))
+				}
+			}
+		}
+		return mkScalar(c, types.Bool, t)
 	})
 	ex.register(zz+"Run", func(fr *frame, args []value) value {
 		unsupp("zzverif.Run is native-only")
